@@ -17,6 +17,7 @@ CONTRACTS = {
     'C11': 'contracts.c11',
     'C13': 'contracts.c13',
     'C14': 'contracts.c14',
+    'C16': 'contracts.c16',
 }
 
 
